@@ -8,6 +8,7 @@
 #include <osmium/io/detail/pbf_input_format.hpp>
 #include <osmium/thread/pool.hpp>
 #include <new>
+#include "dump.hpp"
 #include <cstring>
 #define ENTRY extern "C" __attribute__((noinline))
 using namespace osmium::io::detail;
@@ -44,6 +45,7 @@ __attribute__((noinline)) void verif_model_pop(std::string* ret, queue_wrapper<s
 static int g_summary = 0;      // 1: record (buffer marker, then type and id of every entity) instead of the raw bytes
 static void record_buffer(const osmium::memory::Buffer& b) {
     if (!g_summary) { record(b.data(), b.committed()); return; }
+    if (g_summary == 2) { Dump d{g_out + g_outlen, g_outcap - g_outlen}; d.buffer_exact(b); g_outlen += d.len; return; }      // complete traversal of every delivered object
     const unsigned long mark = 0xb0fUL; record(&mark, 8);
     for (const auto& item : b) {
         const unsigned long t = static_cast<unsigned long>(item.type()); record(&t, 8);
@@ -197,3 +199,6 @@ ENTRY int verif_opl_run(const char* data, unsigned len, const unsigned* cuts, un
     *outlen = g_outlen;
     return rc;
 }
+
+// selects what the models hand to the harness: 0 raw committed bytes, 1 (type, id) summary, 2 complete traversal dump
+ENTRY void verif_set_summary(int mode) { g_summary = mode; }
